@@ -210,3 +210,62 @@ class IoStatistics:
                 and forall(str, lambda k: (k in io_stats) == (k in seen and io_counted(k, last_values, ref_values)))
                 and forall(str, lambda k: implies(k in io_stats,
                                                   io_entry_ok(io_stats, k, last_values, ref_values, duration))))
+
+
+# ---------------------------------------------------------------------------------------------- host statistics
+def capped(n, depth):
+    """length of a history of n points after one more point was pushed and the history was cut to depth"""
+    return ite(n + 1 <= depth, n + 1, depth)
+
+
+def cpu_part_separated(h):
+    """the per-core histories are distinct list objects, none of them is the list that holds them
+    (built by `[[] for _ in stats['cpu']]`)"""
+    return (forall(h.cpu, lambda l: l is not h.cpu)
+            and forall(int, int, lambda i, j: implies(0 <= i and i < j and j < len(h.cpu), h.cpu[i] is not h.cpu[j])))
+
+
+@contract('statscompiler:HostStatisticsInstance._push_cpu_stats', props=['C20'])
+class PushCpuStats:
+    """'the value series of one entity always have exactly as many points as their time series': every per-core history
+    gets exactly one more point (then cut to depth).  Internal helper: the precondition is what push_statistics must
+    establish at the call."""
+    raises = ()
+
+    def modifies(self, cpu_stats):
+        return [contents(cpu_stats), contents_where(lambda r: exists(self.cpu, lambda l: r is l), 'list')]
+
+    def pre_separated(self, cpu_stats):
+        return (cpu_part_separated(self) and cpu_stats is not self.cpu
+                and forall(self.cpu, lambda l: l is not cpu_stats))
+
+    def pre_depth(self):
+        return self.depth >= 0
+
+    def pre_one_value_per_core(self, cpu_stats):
+        """one value is popped per stored core: with fewer values the pop raises IndexError half-way (Appendix A18)"""
+        return len(cpu_stats) >= len(self.cpu)
+
+    def post_one_more_point_per_core(self, old):
+        return forall(int, lambda i: implies(0 <= i and i < len(self.cpu),
+                                             len(self.cpu[i]) == capped(len(old.self.cpu[i]), self.depth)))
+
+    def post_values(self, old):
+        return forall(int, lambda i: implies(0 <= i and i < len(self.cpu) and self.depth >= 1,
+                                             self.cpu[i][len(self.cpu[i]) - 1] == old.cpu_stats[i]))
+
+    def post_consumed(self, cpu_stats, old):
+        return len(cpu_stats) == len(old.cpu_stats) - len(self.cpu)
+
+    def loop0_modifies(self, cpu_stats):
+        return [contents(cpu_stats), contents_where(lambda r: exists(self.cpu, lambda l: r is l), 'list')]
+
+    def loop0_inv(self, k, cpu_stats, old):
+        return (len(cpu_stats) == len(old.cpu_stats) - k
+                and forall(int, lambda j: implies(0 <= j and j < len(cpu_stats), cpu_stats[j] == old.cpu_stats[j + k]))
+                and forall(int, lambda i: implies(
+                    0 <= i and i < len(self.cpu),
+                    ite(i < k,
+                        len(self.cpu[i]) == capped(len(old.self.cpu[i]), self.depth)
+                        and implies(self.depth >= 1, self.cpu[i][len(self.cpu[i]) - 1] == old.cpu_stats[i]),
+                        len(self.cpu[i]) == len(old.self.cpu[i])))))
